@@ -255,6 +255,9 @@ pub struct EffFault {
     pub desc: String,
     /// where the alteration landed (for per-job strictness decisions by the adapter)
     pub site: Option<Site>,
+    /// a verifier share replaced wholesale by the one the same sender produced for another report:
+    /// (sender, round, source report)
+    pub transplant: Option<(u8, u8, u32)>,
 }
 
 #[derive(Clone, Debug)]
@@ -550,13 +553,13 @@ impl<'p, 'c, 'cc, V: SimVdaf<VK>, A: Adapter<V>, const VK: usize> World<'p, 'c, 
                 Act::Drop => {
                     dropped = true;
                     self.ctx.fault("drop");
-                    self.effective.push(EffFault { idx: i, rep: env.rep, ap: ap_opt, exempt: false, desc: format!("drop {:?} {}->{}", env.kind, env.from, env.to), site: None });
+                    self.effective.push(EffFault { idx: i, rep: env.rep, ap: ap_opt, exempt: false, desc: format!("drop {:?} {}->{}", env.kind, env.from, env.to), site: None, transplant: None });
                 }
                 Act::Dup => {
                     dup = true;
                     self.ctx.fault("duplicate");
                     if env.kind == EnvKind::VShare {
-                        self.effective.push(EffFault { idx: i, rep: env.rep, ap: ap_opt, exempt: false, desc: format!("extra verifier share from {}", env.from), site: None });
+                        self.effective.push(EffFault { idx: i, rep: env.rep, ap: ap_opt, exempt: false, desc: format!("extra verifier share from {}", env.from), site: None, transplant: None });
                     }
                 }
                 Act::DupZero => {
@@ -564,7 +567,7 @@ impl<'p, 'c, 'cc, V: SimVdaf<VK>, A: Adapter<V>, const VK: usize> World<'p, 'c, 
                         dup = true;
                         dup_zero = true;
                         self.ctx.fault("extra_zero_share");
-                        self.effective.push(EffFault { idx: i, rep: env.rep, ap: ap_opt, exempt: false, desc: format!("extra all-zero verifier share attributed to {}", env.from), site: None });
+                        self.effective.push(EffFault { idx: i, rep: env.rep, ap: ap_opt, exempt: false, desc: format!("extra all-zero verifier share attributed to {}", env.from), site: None, transplant: None });
                     }
                 }
                 Act::Mutate { part, m } => {
@@ -591,13 +594,14 @@ impl<'p, 'c, 'cc, V: SimVdaf<VK>, A: Adapter<V>, const VK: usize> World<'p, 'c, 
                         // exemption: per-link alteration confined to the recipient's own
                         // joint-randomness part of the public share (ignored by design)
                         let own = env.to as usize;
-                        let exempt = kind == Kind::Public && self.plan.inst.is_prio3() && s >= 32 * own && e <= 32 * own + 32 && !matches!(m, Mutation::Trunc { .. } | Mutation::Extend { .. });
+                        let ss = self.plan.inst.seed_size();
+                        let exempt = kind == Kind::Public && self.plan.inst.is_prio3() && s >= ss * own && e <= ss * own + ss && !matches!(m, Mutation::Trunc { .. } | Mutation::Extend { .. });
                         let reg = regions.iter().find(|r| s >= r.off && s < r.off + r.len);
                         let rname = reg.map(|r| r.name).unwrap_or("?");
                         let roff = reg.map(|r| r.off).unwrap_or(0);
                         self.ctx.counters.inc(&format!("alter.{:?}.{}", kind, rname));
                         let site = Site { kind, region: rname, rel: (s - roff, e - roff), agg, round: env.round, len_change: matches!(m, Mutation::Trunc { .. } | Mutation::Extend { .. }), at_source: false };
-                        self.effective.push(EffFault { idx: i, rep: env.rep, ap: ap_opt, exempt, desc: format!("{:?} of {:?}[{}..{}] ({}) on link {}->{}", m, kind, s, e, rname, env.from, env.to), site: Some(site) });
+                        self.effective.push(EffFault { idx: i, rep: env.rep, ap: ap_opt, exempt, desc: format!("{:?} of {:?}[{}..{}] ({}) on link {}->{}", m, kind, s, e, rname, env.from, env.to), site: Some(site), transplant: None });
                     } else {
                         self.ctx.counters.inc("fault.noop");
                     }
@@ -608,7 +612,7 @@ impl<'p, 'c, 'cc, V: SimVdaf<VK>, A: Adapter<V>, const VK: usize> World<'p, 'c, 
                         if src.parts != env.parts {
                             env.parts = src.parts;
                             self.ctx.fault("splice");
-                            self.effective.push(EffFault { idx: i, rep: env.rep, ap: ap_opt, exempt: false, desc: format!("payload of report {rep2} spliced into {:?} {}->{}", env.kind, env.from, env.to), site: None });
+                            self.effective.push(EffFault { idx: i, rep: env.rep, ap: ap_opt, exempt: false, desc: format!("payload of report {rep2} spliced into {:?} {}->{}", env.kind, env.from, env.to), site: None, transplant: if env.kind == EnvKind::VShare { Some((env.from, env.round, *rep2)) } else { None } });
                         }
                     } else {
                         self.ctx.counters.inc("fault.noop");
@@ -673,7 +677,7 @@ impl<'p, 'c, 'cc, V: SimVdaf<VK>, A: Adapter<V>, const VK: usize> World<'p, 'c, 
                                     self.ctx.fault("corrupt.at_source");
                                     let reg = regions.iter().find(|r| s >= r.off && s < r.off + r.len);
                                     let site = Site { kind: Kind::Public, region: reg.map(|r| r.name).unwrap_or("?"), rel: (s - reg.map(|r| r.off).unwrap_or(0), e - reg.map(|r| r.off).unwrap_or(0)), agg: 0, round: 0, len_change: matches!(m, Mutation::Trunc { .. } | Mutation::Extend { .. }), at_source: true };
-                                    self.effective.push(EffFault { idx: i, rep: ri as u32, ap: None, exempt: false, desc: format!("{:?} of public share [{s}..{e}] at source", m), site: Some(site) });
+                                    self.effective.push(EffFault { idx: i, rep: ri as u32, ap: None, exempt: false, desc: format!("{:?} of public share [{s}..{e}] at source", m), site: Some(site), transplant: None });
                                 } else {
                                     self.ctx.counters.inc("fault.noop");
                                 }
@@ -883,7 +887,7 @@ impl<'p, 'c, 'cc, V: SimVdaf<VK>, A: Adapter<V>, const VK: usize> World<'p, 'c, 
                                 self.ctx.fault("corrupt.vmsg_at_source");
                                 let reg = regions.iter().find(|r| s >= r.off && s < r.off + r.len);
                                 let site = Site { kind: Kind::VMsg, region: reg.map(|r| r.name).unwrap_or("?"), rel: (s - reg.map(|r| r.off).unwrap_or(0), e - reg.map(|r| r.off).unwrap_or(0)), agg: 1, round, len_change: matches!(m, Mutation::Trunc { .. } | Mutation::Extend { .. }), at_source: true };
-                                self.effective.push(EffFault { idx: i, rep, ap: Some(ap), exempt: false, desc: format!("{:?} of the verifier message [{s}..{e}] before fan-out", m), site: Some(site) });
+                                self.effective.push(EffFault { idx: i, rep, ap: Some(ap), exempt: false, desc: format!("{:?} of the verifier message [{s}..{e}] before fan-out", m), site: Some(site), transplant: None });
                             } else {
                                 self.ctx.counters.inc("fault.noop");
                             }
